@@ -371,6 +371,32 @@ func checkC08(c *Ctx) {
 				if !hasHandler {
 					okSched, dSched = false, "the pause/deal-on handler is not the one scheduled"
 				}
+				// … and any other handler (the "table time is up" one) only when the table's time IS up: now later than
+				// start + maximum duration. Under any other condition the table would stop after a hand although it should
+				// pause or deal on.
+				for _, lf := range p.phiLeaves(v.Call.Common().Args[2]) {
+					isMain := false
+					for _, cl := range closureOperands(lf.V) {
+						if cl == handler {
+							isMain = true
+						}
+					}
+					if isMain {
+						continue
+					}
+					timeUp := cmpHolds(lf.Guards, func(l, r *Sym, op token.Token) bool {
+						hasNow := func(x *Sym) bool { return x.Contains(func(y *Sym) bool { return y.IsCall("time.Now") }) }
+						hasEnd := func(x *Sym) bool {
+							return x.Contains(func(y *Sym) bool { return y.IsField("TableState", "StartAt") }) && x.Contains(func(y *Sym) bool { return y.IsField("TableMeta", "MaxDuration") })
+						}
+						return (op == token.GTR && hasNow(l) && hasEnd(r)) || (op == token.LSS && hasNow(r) && hasEnd(l))
+					})
+					var gtxt []string
+					for _, g := range lf.Guards {
+						gtxt = append(gtxt, g.String())
+					}
+					c.Check(timeUp, "R3", "other-handler-only-when-table-time-is-up", p.InstrPos(v.Call), "the end-of-table handler is scheduled only under now > start + maximum duration", "a handler other than the pause / deal-on one is scheduled under ["+strings.Join(gtxt, ", ")+"], which does not establish that the table's maximum duration has passed: the table would stop after a hand instead of pausing or dealing on")
+				}
 				continue
 			}
 			// any other return must be an error exit (a failing call's error)
